@@ -4,12 +4,16 @@ CONSTANTS
   Roles = {"server", "client"}
   Limits = {1, 2, 125, 126, 1000, 65535}
   MaxFrames = 4
+  JudgeRsv1NonFirst = TRUE
   Family = "limit"
   Alpha <- GenAlpha
   Probe <- Probes
   AcceptTopBit = FALSE
   LimitPerFrame = FALSE
   PongEmpty = FALSE
+  Compress = {FALSE}
+  Rsv1Shadows = FALSE
+  Rsv1Anywhere = FALSE
   BufSizes = {0}
   CtlNeedsBuffer = FALSE
 INVARIANTS Emit
